@@ -6,6 +6,7 @@
 -/
 import FordModel.Basic.Split
 import FordModel.Reader
+import FordModel.Fixed
 import FordModel.CallsTable
 namespace Ford.Calls
 open Ford
@@ -44,5 +45,28 @@ def recordedPhysical (phys : List Str) : List Chain := recorded (physStatements 
 
 def recordedOfPhysical (lines : List String) : List (List String) :=
   (recordedPhysical (lines.map String.toList)).map (fun c => c.map String.ofList)
+
+/-! ### fixed-form source (round 6)
+
+  A fixed-form file (`.f`, `.for`, ...) reaches the reader through `ford/fixed2free2.py`
+  (`convertToFree`, model `Ford.Fixed.convertToFree` of Fixed.lean, shared with C14): the label
+  field is put in front of the statement field, a card that is continued gets ` &`, and - with
+  `fixed_length_limit` on - what stands in columns 73+ of a card goes behind a `!` that is placed
+  in column 73 or later.  The statements of a unit body written as cards are what the reader
+  delivers for the converted lines. -/
+
+/-- the statements the reader delivers for the fixed-form cards `cards` (each with its line
+    terminator) under converter variant `v` and length limit `lim` -/
+def fixedStatements (v : Fixed.Variant) (lim : Bool) (cards : List Str) : List Str :=
+  physStatements ((Fixed.convertToFree v lim cards).map Fixed.dropNL)
+
+/-- the recorded call chains of a unit whose body consists of the fixed-form cards `cards` -/
+def recordedFixed (v : Fixed.Variant) (lim : Bool) (cards : List Str) : List Chain :=
+  recorded (fixedStatements v lim cards)
+
+/-- cards given without line terminator, code as it is after the C14 repair, limit on -/
+def recordedOfFixed (cards : List String) : List (List String) :=
+  (recordedFixed Fixed.Variant.repaired true (cards.map (fun c => c.toList ++ ['\n']))).map
+    (fun c => c.map String.ofList)
 
 end Ford.Calls
